@@ -434,3 +434,8 @@ package db
 // no-op, so a recycled context would answer from whatever generation first filled it).
 //@ func rdbdriver.NewContext
 //@ ensures[fresh] result != nil && dyntype(result) == ptrtag("rdb.Context") && fresh(asptr(result, "rdb.Context"))
+
+// FindECS only reads the message (used by the whoami handler)
+//@ func FindECS
+//@ trusted
+//@ pure
